@@ -9,8 +9,23 @@ Import ListNotations.
 Theorem C07_init : Inv init.
 Proof. exact init_inv. Qed.
 Print Assumptions C07_init.
+(* ---- and for the state resetDims leaves (every other creator starts from it): identity uid table, names New-1..New-n *)
+Theorem C07_init_resetDims : forall ncol nech, Inv (reset_dims ncol nech).
+Proof. exact reset_dims_inv. Qed.
+Print Assumptions C07_init_resetDims.
+(* ---- creators = fixed scripts of modelled calls on such a state (Db::createFromSamples, createFromBox,
+        createFillRandom, DbGrid::create with its rank / coordinate columns, DbGrid::createSubGrid): the created Db
+        satisfies the invariant whenever every call of the script is inside its guard, i.e. (only guard left) no role
+        string / locatorIndex asks for a rank beyond the current count *)
+Theorem C07_init_creators : forall g c, Inv (snd g) -> accepted_cmd g c -> Inv (snd (exec g c)).
+Proof. exact exec_inv. Qed.
+Print Assumptions C07_init_creators.
+(* ---- any finite sequence of commands (creators, editors on a Db or — sample count frozen — on a DbGrid) *)
+Theorem C07_reachable_cmd : forall cs g, Inv (snd g) -> all_accepted_cmd g cs -> Inv (snd (fold_left exec cs g)).
+Proof. exact reachable_cmd. Qed.
+Print Assumptions C07_reachable_cmd.
 
-(* ---- every modelled editor (30 constructors of [op]) preserves it, under the guard [accepted] = the exact extra
+(* ---- every modelled editor (40 constructors of [op]) preserves it, under the guard [accepted] = the exact extra
         hypothesis the proofs force (Spec.why_not). One guard is left: for the role setters (and the locatorIndex
         argument of addColumnsByConstant / addColumns) the rank must not exceed the current number of roles of that
         type, counted after the role of the uid itself has been cancelled (see C07_step_refuted_index_beyond_count).
@@ -60,7 +75,7 @@ Print Assumptions C07_counts_active.
         does not address keeps its value *)
 Theorem C07_frame : forall s o u e, Inv s -> accepted s o ->
   is_live s u -> is_live (step s o) u -> e < nech s ->
-  addressed o (Z.of_nat u) e = false ->
+  addressed (fun c => oz (uid_of_col_z s c)) o (Z.of_nat u) e = false ->
   forall e', remap_sample o (nech s) e = Some e' -> get_cell (step s o) e' u = get_cell s e u.
 Proof. exact frame. Qed.
 Print Assumptions C07_frame.
@@ -79,7 +94,7 @@ Proof. exact set_locs_col_post. Qed.
 Print Assumptions C07_setlocs_col_post.
 
 (* ---- the observation-level check evaluated by the search step (extracted, run on the implementation's getters)
-        is sound for the invariant: on the observations of any state satisfying Inv all eight clauses pass; hence an
+        is sound for the invariant: on the observations of any state satisfying Inv all nine clauses pass; hence an
         alarm of check_obs on an observation equal to the model's means the model state itself violates Inv *)
 Theorem C07_obs_sound : forall s, Inv s -> check_obs (observe s) = 0%Z.
 Proof. exact obs_sound. Qed.
@@ -87,6 +102,12 @@ Print Assumptions C07_obs_sound.
 Theorem C07_obs_sound_reachable : forall ops, all_accepted init ops -> check_obs (observe (run_ops ops)) = 0%Z.
 Proof. intros ops H. apply obs_sound. now apply reachable_inv. Qed.
 Print Assumptions C07_obs_sound_reachable.
+
+(* ---- cells read through the selection (getColumn*(useSel = true, flagCompress)): as many as there are active
+        samples, whatever the values held by the selection column (also a clause of check_obs, hence of C07_obs_sound) *)
+Theorem C07_selected_cells : forall s, Inv s -> chk_selcols (observe s) = true.
+Proof. exact obs_selcols. Qed.
+Print Assumptions C07_selected_cells.
 
 (* ================= finding still present in the code ================= *)
 
@@ -128,6 +149,50 @@ Example C07_nonvacuous :
   names (fold_left step [DelCols [1; 3]%Z; SetNameList [[97%Z]; [112; 45; 49]%Z] [97%Z]] nv_state)
     = [[97; 46; 50]; [112; 45; 52]; [97; 46; 49]]%Z /\
   get_cell nv_state 1 2 = Some 9%Z /\ get_cell (step nv_state (DelSample 0)) 0 2 = Some 9%Z /\
-  remap_sample (DelSample 0) 3 1 = Some 0 /\ addressed (SetArray 1 2 None) 2 1 = true /\
+  remap_sample (DelSample 0) 3 1 = Some 0 /\ addressed (fun c => c) (SetArray 1 2 None) 2 1 = true /\
   sel_value nv_sel_state 1 = Some 0%Z.
+Proof. vm_compute. repeat split; reflexivity. Qed.
+
+(* creators; names made of regular-expression metacharacters designate their own column (exact name first);
+   a selection value other than 0/1 breaks the selected-cells clause *)
+Example C07_nonvacuous_creators :
+  let g1 := exec (false, init) (NewGrid [3; 2] [1; 1]%Z [10; 20]%Z true
+                 (map (fun z => Some z) [1; 2; 3; 4; 5; 6; 7; 8; 9; 10; 11; 12]%Z) [[97]; [120; 49]]%Z
+                 [(Some 1, 1%Z); (Some 3, 1%Z)] true true) in
+  let g2 := exec g1 (SubGrid [3; 2] [1; 1]%Z [10; 20]%Z [(1, 3); (0, 2)] true) in
+  let g3 := exec (false, init) (NewSamples 2 false (map (fun z => Some z) [1; 2; 3; 4]%Z) [[97; 42]; [91; 40]]%Z [] true) in
+  why_not_cmd (false, init) (NewGrid [3; 2] [1; 1]%Z [10; 20]%Z true
+                 (map (fun z => Some z) [1; 2; 3; 4; 5; 6; 7; 8; 9; 10; 11; 12]%Z) [[97]; [120; 49]]%Z
+                 [(Some 1, 1%Z); (Some 3, 1%Z)] true true) = 0%Z /\
+  names (snd g1) = [[114; 97; 110; 107]; [120; 49; 46; 49]; [120; 50]; [97]; [120; 49]]%Z /\
+  loc (snd g1) 0 = [1; 2] /\ loc (snd g1) 1 = [3] /\ loc (snd g1) 3 = [4] /\
+  column (snd g1) 1 = map (fun z => Some z) [10; 11; 12; 10; 11; 12]%Z /\
+  stepg (fst g1) (snd g1) (AddSamples 2 None) = snd g1 /\
+  names (snd g2) = [[114; 97; 110; 107]; [120; 49]; [120; 50]; [97]]%Z /\
+  column (snd g2) 3 = map (fun z => Some z) [2; 3; 5; 6]%Z /\ check_obs (observe (snd g2)) = 0%Z /\
+  why_not_cmd (false, init) (NewSamples 2 true [Some 1; Some 2]%Z [] [(Some 0, 2%Z)] false) = 1%Z /\
+  names (snd g3) = [[114; 97; 110; 107]; [97; 42]; [91; 40]]%Z /\
+  colidx_of_name (snd g3) [91; 40]%Z = Some 2 /\ column_of_name (snd g3) [97; 42]%Z = [Some 1; Some 3]%Z /\
+  check_obs (observe (snd g3)) = 0%Z /\
+  chk_selcols (observe (step (snd g3) (SetLocCol 1 (Some SEL) 0 false))) = true /\
+  column_sel (step (snd g3) (SetLocCol 1 (Some SEL) 0 false)) 0 true = [Some 1; Some 2]%Z /\
+  remap_sample (DelSamples [0; 2]%Z) 4 3 = Some 1.
+Proof. vm_compute. repeat split; reflexivity. Qed.
+
+(* createCoarse after the deletion of a middle column: the new grid carries rank, x1, x2 and the columns b (f1), c (v1)
+   of the input grid, designated by column index in the input, by uid in the migration *)
+Example C07_nonvacuous_migrate :
+  let g0 := exec (false, init) (NewGrid [4; 4] [1; 1]%Z [0; 0]%Z true [] [] [] true true) in
+  let g1 := fold_left exec [Do (AddCols 1 (Some 5%Z) [97%Z] (Some 1) 0 0); Do (AddCols 1 (Some 6%Z) [98%Z] (Some 3) 0 0);
+                            Do (AddCols 1 (Some 7%Z) [99%Z] (Some 2) 0 0); Do (DelName [97%Z])] g0 in
+  let c := Migrate false [4; 4] [1; 1]%Z [0; 0]%Z [2; 2] true true in
+  let g2 := exec g1 c in
+  uidcol (snd g1) = [Some 0; Some 1; Some 2; None; Some 3; Some 4] /\ migrated_cols (snd g1) true = [3; 4] /\
+  why_not_cmd g1 c = 0%Z /\
+  names (snd g2) = [[114; 97; 110; 107]; [120; 49]; [120; 50]; [98]; [99]]%Z /\ nech (snd g2) = 4 /\
+  loc (snd g2) 0 = [1; 2] /\ loc (snd g2) 1 = [] /\ loc (snd g2) 3 = [3] /\ loc (snd g2) 2 = [4] /\
+  column (snd g2) 1 = [ABS; ABS; ABS; ABS] /\ column (snd g2) 3 = [ABS; ABS; ABS; ABS] /\
+  check_obs (observe (snd g2)) = 0%Z /\
+  column (snd (exec g1 (Migrate false [4; 4] [1; 1]%Z [0; 0]%Z [3; 3] true false))) 0 = [Some 1%Z] /\
+  exec (false, snd g1) c = (false, snd g1).
 Proof. vm_compute. repeat split; reflexivity. Qed.
